@@ -13,16 +13,27 @@ os.makedirs(dst, exist_ok=True)
 def run(cmd, **kw):
     p = subprocess.run(cmd, capture_output=True, text=True, **kw)
     return p.returncode, (p.stdout + p.stderr)
-# refresh the patch from the worktree itself
+# the patch comes from the seeding worktree; it is re-applied to a FRESH worktree of /repo's current HEAD
+# (fixes committed to /repo since the seed was made must be in the tree the checks run against)
 rc, diff = run(['git', '-C', wt, 'diff'])
+if not diff.strip() and os.path.exists(f'{dst}/patch.diff'):
+    diff = open(f'{dst}/patch.diff').read()
 open(f'{dst}/patch.diff', 'w').write(diff)
+fresh = f'/tmp/seedrun_{sid}'
+run(['git', '-C', '/repo', 'worktree', 'remove', '--force', fresh])
+run(['git', '-C', '/repo', 'worktree', 'add', '--detach', fresh, 'HEAD'])
+rc, o = run(['git', '-C', fresh, 'apply', f'{dst}/patch.diff'])
+if rc != 0:
+    rc, o = run(['git', '-C', fresh, 'apply', '--3way', f'{dst}/patch.diff'])
+print('applied to HEAD:', rc == 0, o[:200])
+wt = fresh
 for f in ('demo.py', 'notes.md'):
     if os.path.exists(f'{out}/{f}'):
         shutil.copy(f'{out}/{f}', f'{dst}/{f}')
 env = lambda tree: dict(os.environ, PYTHONPATH=tree, PYTHONDONTWRITEBYTECODE='1')
 rc0, o0 = run(['/venv/bin/python', f'{dst}/demo.py'], env=env('/repo'), cwd='/tmp')
 rc1, o1 = run(['/venv/bin/python', f'{dst}/demo.py'], env=env(wt), cwd='/tmp')
-meta = {'seed_id': sid, 'demo_exit_on_unchanged_repo': rc0, 'demo_exit_with_change': rc1,
+meta = {'seed_id': sid, 'repo_head': run(['git', '-C', '/repo', 'log', '--format=%h', '-1'])[1].strip(), 'demo_exit_on_unchanged_repo': rc0, 'demo_exit_with_change': rc1,
         'patch_files': [l[6:] for l in diff.splitlines() if l.startswith('+++ b/')], 'checks': {}}
 print(f'demo: unchanged={rc0} changed={rc1}')
 if '--no-baseline' not in sys.argv:
@@ -37,5 +48,6 @@ for c in checks:
     meta['checks'][c] = {'exit': rc, 'violations': viol[:5], 'first_messages': [w[:400] for w in what[:3]], 'wall_s': round(time.time() - t)}
     print(c, 'exit', rc, viol[:2], (what[:1] or [''])[0][:300])
 json.dump(meta, open(f'{dst}/run.json', 'w'), indent=1)
+run(['git', '-C', '/repo', 'worktree', 'remove', '--force', fresh])
 # restore Extracted tables to /repo's
 subprocess.run([f'{V}/check', '--setup'], capture_output=True, cwd=V)
